@@ -32,6 +32,8 @@ structure VP where
   expels : List Expel
   majority : Option String      -- `none` = draw
   stuck : Bool := false
+  /-- some sign fact, or the majority, is a fact of another stage point (height, round or stage) -/
+  offPoint : Bool := false
 deriving Repr, DecidableEq
 
 def VP.expelled (vp : VP) : List Nat := vp.expels.map (·.node)
@@ -72,7 +74,9 @@ def validWith (S : List Nat) (t10 : Nat) (order : List String) (vp : VP) (stuckN
     (!vp.expels.isEmpty && decide (t10 = 1000) && decide (S.length = vp.votes.length + vp.expels.length) &&
      (!stuckNoMajority || vp.majority.isNone) &&
      -- `isValidVoteproofVoteResult`: a declared majority must be one of the sign facts
-     (match vp.majority with | some f => (vp.votes.map (·.2)).contains f | none => true)))
+     (match vp.majority with | some f => (vp.votes.map (·.2)).contains f | none => true))) &&
+  -- `isValidFactInVoteproof`: every sign fact and the majority are facts of the voteproof's stage point
+  !vp.offPoint
 
 def valid (S : List Nat) (t10 : Nat) (vp : VP) (stuckNoMajority : Bool := true) : Bool :=
   validWith S t10 (keysOf (vp.votes.map (·.2))) vp stuckNoMajority
